@@ -773,8 +773,14 @@ func c17BcExec(in c17Input, rec *c17Rec) {
 		if len(in.data) > 16 || in.state >= 2 {
 			wait = 60 * time.Millisecond
 		}
-		for dl := time.Now().Add(wait); time.Now().Before(dl); time.Sleep(time.Millisecond) {
+		// ... and wait until poolRoutine is done with a pair of blocks it may be verifying (it ends
+		// with the sender stopped or with the pair consumed)
+		t0 := time.Now()
+		for dl := t0.Add(3 * time.Second); time.Now().Before(dl); time.Sleep(time.Millisecond) {
 			if !hostile.IsRunning() {
+				break
+			}
+			if f, s := env.bcR.pool.PeekTwoBlocks(); (f == nil || s == nil) && time.Since(t0) >= wait {
 				break
 			}
 		}
@@ -818,6 +824,22 @@ func c17BcExec(in c17Input, rec *c17Rec) {
 				}
 			}
 			env.bcR.RemovePeer(hostile, "gone")
+			// the requesters drop the departed peer's blocks asynchronously (redoCh): wait for that, so
+			// that a stale block of the hostile peer is not charged to the honest one (RedoRequest
+			// punishes whoever holds the request at that moment)
+			for dl := time.Now().Add(500 * time.Millisecond); time.Now().Before(dl); time.Sleep(time.Millisecond) {
+				held := false
+				env.bcR.pool.mtx.Lock()
+				for _, rq := range env.bcR.pool.requesters {
+					if rq.getPeerID() == hostile.ID() {
+						held = true
+					}
+				}
+				env.bcR.pool.mtx.Unlock()
+				if !held {
+					break
+				}
+			}
 			honest := c17NewPeer(4, true)
 			reqs := make(chan int64, 1024)
 			honest.onSend = func(e p2p.Envelope) {
